@@ -20,7 +20,7 @@ const KW_FIELDS: [(&str, bool); 50] = [
     ("for_", false), ("in_", false), ("as_", false), ("while_", false), ("try_", false), ("return_", false), ("class_", false), ("from_", false),
     ("_in", false), ("_for", false), ("_import", false), ("Class", false), ("Import", false), ("Default", false), ("is_", false), ("_is", false),
 ];
-const KW_VARIANTS: [&str; 24] = ["Default", "Public", "Internal", "Static", "Import", "Return", "In", "Is", "Case", "Class", "Func", "Let", "Var", "Init", "Private", "Where", "While", "Switch", "Guard", "Defer", "Repeat", "Throw", "Catch", "Nil"];
+const KW_VARIANTS: [&str; 27] = ["Default", "Public", "Internal", "Static", "Import", "Return", "In", "Is", "Case", "Class", "Func", "Let", "Var", "Init", "Private", "Where", "While", "Switch", "Guard", "Defer", "Repeat", "Throw", "Catch", "Nil", "_1st", "_2Fast", "_9"];
 
 fn msg_class(m: &str) -> String {
     // drop positions, quoted fragments and the "near" excerpt so that the class is stable
@@ -116,6 +116,12 @@ pub fn run(ctx: &Ctx) -> (Spec, Report) {
             for it in prog.items.iter_mut().filter(|i| i.is_annotated()) {
                 match &mut it.kind {
                     Kind::Struct(fs) => {
+                        // (rare: the three backends of the recorded finding stop at this name, hiding the rest of the file)
+                        if rng.chance(1, 20) {
+                            if let Some(f) = fs.last_mut() {
+                                f.rename = Some(rng.pick(&["1st", "2fa-code", "9"]).to_string());
+                            }
+                        }
                         if rng.chance(1, 4) {
                             let (kw, raw) = *rng.pick(&KW_FIELDS);
                             if !fs.iter().any(|f| f.ident == kw) {
@@ -129,11 +135,18 @@ pub fn run(ctx: &Ctx) -> (Spec, Report) {
                         }
                         if rng.chance(1, 8) {
                             if let Some(f) = fs.first_mut() {
-                                f.ts_args.push(rng.pick(&["typescript(readonly)", "typescript(type = \"string | number\")", "kotlin(type = \"kotlin.Any\")", "swift(type = \"Any\")", "go(type = \"interface{}\")", "scala(type = \"Any\")", "typescript(readonly, type = \"Record<string, unknown>[]\")"]).to_string());
+                                f.ts_args.push(rng.pick(&["typescript(readonly)", "typescript(type = \"string | number\")", "kotlin(type = \"kotlin.Any\")", "swift(type = \"Any\")", "go(type = \"interface{}\")", "scala(type = \"Any\")", "typescript(readonly, type = \"Record<string, unknown>[]\")", "typescript(type = \"string | number\", readonly)", "typescript(type = \"unknown\", readonly), kotlin(type = \"kotlin.Any\")"]).to_string());
                             }
                         }
                     }
                     Kind::Enum { variants, .. } => {
+                        // wire names that are not identifiers in any target: leading digit, dash, a single digit
+                        if rng.chance(1, 5) {
+                            let k = rng.below(variants.len().max(1));
+                            if let Some(v) = variants.get_mut(k) {
+                                v.rename = Some(rng.pick(&["2fa", "3d-secure", "1", "7_up", "404NotFound"]).to_string());
+                            }
+                        }
                         if rng.chance(1, 4) {
                             let kw = *rng.pick(&KW_VARIANTS);
                             if !variants.iter().any(|v| v.ident == kw) {
